@@ -36,6 +36,8 @@ Apply(m, c) ==
     [] c.f = "set_option"        -> [m EXCEPT !.opts = SetOpt(@, c.a.num, c.a.vs)]
     [] c.f = "clear_option"      -> [m EXCEPT !.opts = ClearOpt(@, c.a.num)]
     [] c.f = "clear_all_options" -> [m EXCEPT !.opts = << >>]
+    \* the public header field replaced as a whole (its token-length nibble matching the token)
+    [] c.f = "replace_header"    -> [m EXCEPT !.ver = c.a.b \div 64, !.typ = (c.a.b \div 16) % 4, !.code = c.a.code, !.mid = c.a.mid]
     \* typed adders / setters (C06): uint values are given as fixed-width digits
     [] c.f = "add_option_uint"   -> [m EXCEPT !.opts = AddOptVal(@, c.a.num, UintEnc(c.a.digits))]
     [] c.f = "add_option_str"    -> [m EXCEPT !.opts = AddOptVal(@, c.a.num, c.a.v)]
